@@ -230,6 +230,12 @@ def check(ctx):
                 direct.append(site(task, pb))
         ctx.check(not direct, RD, "C14/deadline/no-unbounded-await", task.loc,
                   reason="connection.listen() is awaited without the deadline at %s" % direct, detail="listen() only awaited through timeout")
+        # nothing else in the task may wait on the client outside the deadline
+        others = [(site(task, a[0]), a[2]) for a in awaits(ctx, task)
+                  if not (a[1] == "ext" and a[2].endswith(("time::timeout", "AsyncWriteExt::shutdown")))]
+        ctx.check(not others, RD, "C14/deadline/only-bounded-awaits", task.loc,
+                  reason="the connection task also awaits %s outside tokio::time::timeout: a client that withholds what is awaited there keeps the connection open past the configured deadline" % others,
+                  detail="the task awaits only timeout(.., listen()) and the final shutdown()")
         # afterwards: shutdown on the same stream on every path to the end of the task
         shs = calls(task, "AsyncWriteExt::shutdown")
         ctx.floor(RD, "stream.shutdown() in the connection task", len(shs), 1, task.loc)
